@@ -233,6 +233,18 @@ def psum(eng, st, arr=None, length=None):
                 except z3.Z3Exception:
                     concl = z3.ForAll([m1, m2], cbody)
                 st.pc.append(z3.Implies(prem, concl))
+    if length is not None:
+        # lemma instances (proved by induction in lemmas/l_sums.py): lists that agree on [0,n) have equal prefix sums
+        apps = st.ghost.get('psum_apps', [])
+        if not any(x.eq(arr) for x, _ in apps):
+            s_ = z3.Int(fresh_name('ps'))
+            m_ = z3.Int(fresh_name('pm'))
+            for (x, y) in apps:
+                n_ = z3.If(length <= y, length, y)
+                prem = z3.ForAll([s_], z3.Implies(z3.And(0 <= s_, s_ < n_), z3.Select(arr, s_) == z3.Select(x, s_)))
+                st.pc.append(z3.Implies(prem, forall_p([m_], z3.Implies(z3.And(0 <= m_, m_ <= n_), f(arr, m_) == f(x, m_)),
+                                                       [f(arr, m_)])))
+            st.ghost['psum_apps'] = apps + [(arr, length)]
     return f
 
 
@@ -1085,6 +1097,11 @@ def np_vstack(eng, st, args, kw, node):
     st.assume(z3.ForAll([s_], z3.Implies(z3.And(0 <= s_, s_ < n),
                                          voff(r, s_ + 1) == voff(r, s_) + z3.Select(sh0, z3.Select(parts, s_))),
                         patterns=[voff(r, s_)]))
+    # the same offsets as prefix sums of the list of row counts
+    _CUR[0] = st
+    rows = lam([s_], z3.Select(sh0, z3.Select(parts, s_)))
+    pf = psum(eng, st, rows, n)
+    st.assume(z3.ForAll([s_], z3.Implies(z3.And(0 <= s_, s_ <= n), voff(r, s_) == pf(rows, s_)), patterns=[voff(r, s_)]))
     out = z3.Const(fresh_name('vstack'), z3.ArraySort(I, I, R))
     st.assume(z3.ForAll([s_, i_, c_], z3.Implies(z3.And(0 <= s_, s_ < n, 0 <= i_, i_ < z3.Select(sh0, z3.Select(parts, s_))),
                                                  z3.Select(out, voff(r, s_) + i_, c_) == z3.Select(z3.Select(d2, z3.Select(parts, s_)), i_, c_)),
